@@ -6,7 +6,7 @@
      sort           scan_deps + Kahn                            C13   Save/SortStage.v
      dispatch       Ports::dispatch + the macros' callbacks     C04 + C14   Save/TreeStage.v
    What is left of the print/scan stage as a premise is per LINE: the lines outside
-   C10's goodc fragment (floats, plain option symbols, "[...]" array lines) are assumed
+   C10's goodc0 fragment (floats, plain option symbols, "[...]" array lines) are assumed
    to read back ([line_reads]); for the lines inside it that is proved. *)
 From Coq Require Import List ZArith Bool Lia Arith Permutation.
 From RtoscV Require Import Ports.NameModel Ports.WalkModel Ports.DispatchModel Ports.TreeProofs
